@@ -528,6 +528,9 @@ impl<'a> Walk<'a> {
                 self.f(0, 1, "version", "xhmtx.flags");
                 self.f(1, 2, "value", "xhmtx.advance[0]");
                 self.f(3, 2, "value", "xhmtx.advance[1]");
+                if *len >= 7 {
+                    self.f(*len - 2, 2, "value", "xhmtx.last");
+                }
             } else if *transformed {
                 self.enter(tag, *off, *len, "table");
                 self.f(0, 1, "value", "xform.first");
@@ -732,8 +735,9 @@ impl<'a> Walk<'a> {
                 let ilen = self.u16(il).unwrap_or(0);
                 let fl = il + 2 + ilen;
                 if fl + 2 <= b {
-                    self.f(fl, 1, "value", &format!("{}.flags[0]", nm));
-                    self.f(fl + 1, 1, "value", &format!("{}.flags[1]", nm));
+                    // flag bytes: every bit is a switch (ON_CURVE, X / Y_SHORT, REPEAT, SAME / POSITIVE, OVERLAP) = role version
+                    self.f(fl, 1, "version", &format!("{}.flags[0]", nm));
+                    self.f(fl + 1, 1, "version", &format!("{}.flags[1]", nm));
                     self.f(b - 1, 1, "value", &format!("{}.lastByte", nm));
                 }
             } else if nc >= 0x8000 {
@@ -1147,6 +1151,8 @@ impl<'a> Walk<'a> {
             None => return,
         };
         self.f(cp, 2, "count", &format!("{}.tupleVariationCount", nm));
+        // its high byte holds the flags (SHARED_POINT_NUMBERS, reserved bits): a field of its own for the bit classes
+        self.f(cp, 1, "version", &format!("{}.tupleVariationCount.flags", nm));
         self.f(cp + 2, 2, "offset", &format!("{}.dataOffset", nm));
         let doff = self.u16(cp + 2).unwrap_or(0);
         let n = tvc & 0x0fff;
@@ -1159,6 +1165,8 @@ impl<'a> Walk<'a> {
             };
             self.f(hp, 2, "length", &format!("{}.hdr[{}].variationDataSize", nm, t));
             self.f(hp + 2, 2, "index", &format!("{}.hdr[{}].tupleIndex", nm, t));
+            // EMBEDDED_PEAK_TUPLE, INTERMEDIATE_REGION, PRIVATE_POINT_NUMBERS live in the high byte
+            self.f(hp + 2, 1, "version", &format!("{}.hdr[{}].tupleIndex.flags", nm, t));
             let mut q = hp + 4;
             if ti & 0x8000 != 0 {
                 self.f(q, 2, "value", &format!("{}.hdr[{}].peak0", nm, t));
@@ -1576,7 +1584,7 @@ impl<'a> Walk<'a> {
             }
             let _ = sc;
             self.f(lo + 2 + 2 * li, 2, "offset", &format!("lookupOffset[{}]", li));
-            self.fs(lp, &[(2, "version", &format!("lookup[{}].type", li)), (2, "value", &format!("lookup[{}].flag", li)), (2, "count", &format!("lookup[{}].subTableCount", li)), (2, "offset", &format!("lookup[{}].subTableOffset[0]", li))]);
+            self.fs(lp, &[(2, "version", &format!("lookup[{}].type", li)), (2, "version", &format!("lookup[{}].flag", li)), (2, "count", &format!("lookup[{}].subTableCount", li)), (2, "offset", &format!("lookup[{}].subTableOffset[0]", li))]);
             self.ctx_subtable(sp, real == chain, li, &nm);
             found += 1;
             if found >= 4 {
@@ -1642,7 +1650,7 @@ impl<'a> Walk<'a> {
                 self.f(lo + 2 + 2 * k, 2, "offset", &format!("lookupOffset[{}]", kn));
                 if let Some(l) = self.u16(lo + 2 + 2 * k) {
                     let lp = lo + l;
-                    self.fs(lp, &[(2, "version", &format!("lookup[{}].type", kn)), (2, "value", &format!("lookup[{}].flag", kn)), (2, "count", &format!("lookup[{}].subTableCount", kn)), (2, "offset", &format!("lookup[{}].subTableOffset[0]", kn))]);
+                    self.fs(lp, &[(2, "version", &format!("lookup[{}].type", kn)), (2, "version", &format!("lookup[{}].flag", kn)), (2, "count", &format!("lookup[{}].subTableCount", kn)), (2, "offset", &format!("lookup[{}].subTableOffset[0]", kn))]);
                     if let Some(st) = self.u16(lp + 6) {
                         self.fs(lp + st, &[(2, "version", &format!("lookup[{}].sub0.format", kn)), (2, "offset", &format!("lookup[{}].sub0.word1", kn)), (2, "value", &format!("lookup[{}].sub0.word2", kn)), (2, "count", &format!("lookup[{}].sub0.word3", kn))]);
                         // the second word of a sub-table is its coverage offset, except in an extension sub-table
